@@ -251,6 +251,8 @@ def draw_case(rng, tier):
         periods = np.sort(periods)
     if rng.random() < 0.3:
         periods = np.concatenate([[0.0], periods])
+    if rng.random() < 0.03:
+        periods = np.array([0.0])        # the rigid oscillator alone: "optionally one leading T=0" with nothing after it
     xi = float(XIS[int(rng.integers(len(XIS)))]) if rng.random() < 0.75 else float(rng.uniform(0, 1))
     return x, cls, dt, periods, xi
 
